@@ -18,6 +18,7 @@ Not decided: that crossings are found, that pursue_path chains the right
 pieces, numerical robustness.
 """
 import ast
+from fractions import Fraction as Fr
 import itertools
 
 from verifkit import pat
@@ -1524,4 +1525,64 @@ def r01_12(ctx):
     return o
 
 
-RULES = [r01_1, r01_2, r01_3, r01_4, r01_5, r01_6, r01_7, r01_8, r01_9, r01_10, r01_11, r01_12]
+def r01_13(ctx):
+    """abstract run (W) of FollowPath.split_two_jordans on two stand-in curves with a tabulated crossing list: each curve
+    is split exactly once, at its *own* (segment, parameter) pairs -- (a, u) for the first, (b, v) for the second --
+    index i paired with parameter i, every crossing used, nothing when the boxes are apart"""
+    from verifkit.finite import Raised
+    out = Outcome("R01.13", "split_two_jordans cuts each of the two curves at its own side of every crossing: the first at "
+                            "(a_i, u_i), the second at (b_i, v_i), indices and parameters kept together", floor=3)
+    fn = ctx.fn("shape.FollowPath.split_two_jordans")
+    inters = [(0, 2, Fr(1, 4), Fr(2, 3)), (0, 1, Fr(3, 4), Fr(1, 5)), (3, 2, Fr(1, 2), Fr(1, 7)), (1, 0, Fr(1, 3), Fr(5, 6))]
+
+    class BoxT(StandIn):
+        def __init__(self, meets):
+            self.meets = meets
+
+        def __and__(self, o):
+            return self if self.meets else None
+
+        __rand__ = __and__
+
+        def __bool__(self):
+            return True
+
+    class Cv(StandIn):
+        def __init__(self, name, meets=True, first=True):
+            self.name, self.meets, self.first, self.splits = name, meets, first, []
+
+        def box(self):
+            return BoxT(self.meets)
+
+        def intersection(self, other, equal_beziers=True, end_points=True):
+            return tuple(inters) if self.first else tuple((b, a, v, u) for a, b, u, v in inters)
+
+        def __and__(self, other):
+            return self.intersection(other, False, False)
+
+        def split(self, indexs, nodes):
+            self.splits.append((tuple(indexs), tuple(nodes)))
+    for label, meets in (("crossing curves", True), ("boxes apart", False)):
+        A, B = Cv("A", meets, True), Cv("B", meets, False)
+        try:
+            Runner(ctx, set(), lambda rn, ev, c, n, r, a, k: True if n == "isinstance" else NotImplemented).call_fn(fn, [A, B])
+        except (Undecided, Raised) as ex:
+            out.undecided(fn.qname, f"{label}: {ex}", where=fn.where())
+            continue
+        if not meets:
+            ok = not A.splits and not B.splits
+            (out.ok if ok else out.bad)(fn.qname, "boxes apart: nothing is split" if ok else
+                                        "curves whose boxes are apart are split all the same", where=fn.where())
+            continue
+        for cv, want in ((A, sorted({(a, u) for a, _, u, _ in inters})), (B, sorted({(b, v) for _, b, _, v in inters}))):
+            got = sorted({p for ix, nd in cv.splits for p in zip(ix, nd)})
+            mismatched = any(len(ix) != len(nd) for ix, nd in cv.splits)
+            if got == want and not mismatched and len(cv.splits) >= 1:
+                out.ok(fn.qname, f"curve {cv.name} is split at its own {len(want)} (segment, parameter) pairs", where=fn.where())
+            else:
+                out.bad(fn.qname, f"curve {cv.name} is not split at its own side of the crossings", where=fn.where(),
+                        detail=f"split at {[(i, str(t)) for i, t in got]}, required {[(i, str(t)) for i, t in want]}")
+    return out
+
+
+RULES = [r01_1, r01_2, r01_3, r01_4, r01_5, r01_6, r01_7, r01_8, r01_9, r01_10, r01_11, r01_12, r01_13]
